@@ -42,6 +42,8 @@ def hazards(t, bad_triples, T, out=None):
                     if isinstance(o, dict):
                         if {"orderby", "limit", "offset", "fetch"} & set(o):
                             out.add("C03:setop-operand-with-order")
+                        if "with" in o:
+                            out.add("C03:setop-operand-with-cte")
                         if (set(SETOPS) & set(o)) and (i > 0 or k in ("union", "union_all")):
                             out.add("C03:nested-setop")
                         if "from" in o and isinstance(o["from"], dict) and set(SETOPS) & set(o["from"]):
@@ -122,6 +124,17 @@ def run(ctx):
         s = fragment_statement(g, rnd)
         if len(s) < 320:
             stmts.append(("common_parser", s))
+    # identifiers that are keywords in some spelling (quoted in the source): the formatter has to quote them again
+    try:
+        from mo_sql_parsing.keywords import RESERVED
+        import extract_tables
+        rw = sorted({w[0].lower() for w in extract_tables.spellings(RESERVED) if len(w) == 1 and w[0].isalpha()})
+    except Exception:
+        rw = ["from", "select", "where", "order", "null", "true", "not", "union", "in", "to"]
+    for w in rnd.sample(rw, min(len(rw), ctx.n(12, 80))):
+        for sp in (w, w.capitalize(), w.upper()):
+            stmts.append(("common_parser", 'select "%s", a as "%s" from t where "%s" = 1 order by "%s"' % (sp, sp, sp, sp)))
+            stmts.append(("common_parser", 'select x."%s" from "%s" as x group by x."%s"' % (sp, sp, sp)))
     base = json.load(open(BASELINE)) if os.path.exists(BASELINE) else []
     corpus = {hashlib.sha1((c["parser"] + "\0" + c["sql"]).encode()).hexdigest()[:16]: c for c in impl.corpus()}
     stmts += [(corpus[h]["parser"], corpus[h]["sql"]) for h in base if h in corpus]
@@ -172,6 +185,10 @@ def run(ctx):
             ftxt = Formatter().dispatch(tree, (pc - 4) / 2)
             ftoks = l1.tokens_of_text(ftxt)
         except Exception:
+            continue
+        if re.search(r"\(\s*NULL\s*\)", ftxt):
+            # the formatter wrote a parenthesised NULL: the real parser does not fold a comparison with it, the model reader does
+            # (boundary of the model, see DESIGN 6.1; the trees concerned are the listed finding C03:comparison-with-bare-null)
             continue
         st2, v2 = impl.outcome(impl.M.parse, "select " + ftxt)
         r = l1.from_json(v2["select"]["value"]) if st2 == "ok" else None
